@@ -100,6 +100,38 @@ def EnumVal.observe : EnumVal → EnumVal
   | .float f => .float (canonFloat f)
   | v => v
 
+/-- `NanBoxedValue::to_boolean` (heap kinds: `heapTruthy` is what the pointee says — non-empty string,
+    non-zero BigInt; objects and symbols are truthy) -/
+def toBoolean (heapTruthy : Bool) (v : BitVec 64) : Bool :=
+  match variantKind v with
+  | .symbol | .object => true
+  | .null | .undefined => false
+  | .int32 => untag_i32 v != 0#32
+  | .boolean => untag_bool v
+  | .string | .bigint => heapTruthy
+  | .float => (v &&& 0x7FFFFFFFFFFFFFFF#64) != 0#64 && !isNaNBits v
+
+/-- `JsValue::as_i32`: an Integer32, or a double whose bits are exactly those of an int32 (so not -0) -/
+def asI32 (v : BitVec 64) : Option (BitVec 32) :=
+  match variantKind v with
+  | .int32 => some (untag_i32 v)
+  | .float =>
+    -- is there an int32 i with f64::from(i).to_bits() == v ?  decode sign / exponent / mantissa
+    let sign := v.getLsbD 63
+    let e := ((v >>> 52) &&& 0x7FF#64).toNat
+    let m := (v &&& 0x000FFFFFFFFFFFFF#64).toNat
+    if v == 0#64 then some 0#32
+    else if e < 1023 || e > 1023 + 31 then none
+    else
+      let shift := 52 - (e - 1023)           -- number of fractional mantissa bits
+      let full := m + 2^52
+      if full % 2^shift != 0 then none
+      else
+        let mag : Nat := full / 2^shift
+        if sign then (if mag ≤ 2^31 then some (BitVec.ofInt 32 (-(mag : Int))) else none)
+        else (if mag < 2^31 then some (BitVec.ofNat 32 mag) else none)
+  | _ => none
+
 def validRef (k : Kind) (a : BitVec 64) : Bool :=
   (k == .object || k == .string || k == .symbol || k == .bigint) &&
   (a &&& 0x0000FFFFFFFFFFFF#64) == a && a != 0#64
